@@ -135,6 +135,15 @@ static void bfs_state_hook(const bfs_hist *h)
   if (kf) {
     e2_canon(kf, hh2, &c2);
     if (hh[0] != hh2[0] || hh[1] != hh2[1]) mc_fail(sig.s, "replaying the same history gave a different object:\n%s\nvs\n%s\n%s", c1.s, c2.s, sig.s);
+    /* a set that is refused (invalid boolean text) must leave an EXISTING entry as it was: a get still returns the text last set.
+     * (On a key that does not exist yet the library creates the key before it refuses; that is not judged.) */
+    if (m2.n > 0) {
+      e2_ent *e0 = &m2.e[m2.n - 1];
+      econf_err rb = econf_setBoolValue(kf, e0->has_g ? e0->g : NULL, e0->k, "maybe");
+      mc_st->libcalls++;
+      if (rb == ECONF_SUCCESS) mc_fail(sig.s, "econf_setBoolValue(..., \"maybe\") was accepted; %s", sig.s);
+      else check_gets(kf, &m2, sig.s, "after a refused econf_setBoolValue on an existing key");
+    }
     struct { const char *s, *k, *want; int kind; } T[] = {
       { "A", "x", "-7", 0 }, { NULL, "n", "18446744073709551615", 1 }, { "[B]", "y", "true", 2 }, { "", "x", "-9223372036854775808", 3 },
       { "A", "t", "4294967295", 4 }, { "Z", "f", "0.5", 5 }, { "B", "d", "-2.5", 6 }, { "[A]", "z", "false", 7 },
